@@ -16,7 +16,7 @@ PROP = {
     "level": "proof",
     "streams": [{"name": "c04", "join": True, "shards": {"quick": 2, "thorough": 16}}],
     "modules": ["GbVerif.Model.Core", "GbVerif.Model.Sys", "GbVerif.Model.Cpu", "GbVerif.Model.Bus", "GbVerif.Model.Cart"],
-    "rule": "one straight-line block of 300 / 1030 / 2100 instructions per program (block length must not depend on the engine); bank switches include bank 8 of 8 (= bank 0 mapped in the window) paired with bank 1 at the same address; subroutines contain LD HL,SP+e / ADD SP,e with offsets that make the low byte of the sum 1..5; 120 (thorough 4000) programs x 2500 (6000) block steps; program = init (TMA/TAC/STAT/LYC/LCDC/IE random from small sets) + 6..15 fragments "
+    "rule": "one main-loop fragment in fifteen calls a routine in the FIXED bank that reads a byte of the switchable bank (LD A,(0x4001) ; RET at 0x3A00) under two different banks and adds the results; one straight-line block of 300 / 1030 / 2100 instructions per program (block length must not depend on the engine); bank switches include bank 8 of 8 (= bank 0 mapped in the window) paired with bank 1 at the same address; subroutines contain LD HL,SP+e / ADD SP,e with offsets that make the low byte of the sum 1..5; 120 (thorough 4000) programs x 2500 (6000) block steps; program = init (TMA/TAC/STAT/LYC/LCDC/IE random from small sets) + 6..15 fragments "
             "in a loop; non-trivial = more than 10 distinct block entry points were visited",
     "assumptions": ["the frame buffer is compared between the two builds only (the pixel pipeline is modelled separately, C15, not inside Sys)"],
 }
